@@ -300,7 +300,17 @@ func c08LeaseRaceChild(ctx *runCtx, spec string) {
 				}
 				got := make(chan res, 1)
 				go func() {
-					l, err := sessB.Via(wk).Lock(bg, key, 0, 10*time.Second)
+					// the waiter spins with 1 ms deadlines (every call starts with an immediate attempt), so that it
+					// takes the lock within microseconds of the holder's Unlock instead of at a 10 ms poll tick
+					cl := sessB.Via(wk)
+					var l paths.Lock
+					var err error
+					for t0 := time.Now(); time.Since(t0) < 10*time.Second; {
+						l, err = cl.Lock(bg, key, 0, time.Millisecond)
+						if err == nil || paths.Class(err) != "lock not acquired" {
+							break
+						}
+					}
 					got <- res{l, err}
 				}()
 				var lstop int32
